@@ -5,7 +5,7 @@ SPEC = {
                  "text": "Theorems rejection_shape / load_rejection_shape / leaf_rejection_path (coq/theories/ConfigLemmas.v), by induction on the size of the assigned value, for all schemas, states, paths and values of every shape: a rejected assignment or load is ErrValidation p with (path of the configuration).(key) a prefix of p -- item index included for configurations in lists -- and p is exactly the field's path for leaf fields; the only other outcome is AttributeError for a map holding an undeclared key of a non-dynamic schema (open finding F33, Example F33_refuted). inst_rejection_shape discharges the leaf hypotheses for the concrete fields. Tied to the code by comparing exception class and ValidationError.ref_path on every rejected step of random histories over all routes (attribute, dotted path, constructor keyword, load_tree, list append / item assignment).",
                  "note": 'Trusted: Coq kernel + vm_compute; harness. Hypothesis of the general theorem: leaf fields raise plain exceptions (typed dict leaves raise ValidationError with their own path: DictProxy, covered by witnesses F16 and C17). Open findings F33 (AttributeError for undeclared key in a nested map) and F37 (typed dict as list item names no list field). Document-load route through parsers: C18/C04 streams. No axioms.',
                  "design_ref": "DESIGN.md section 6 C15"},
-    "streams": ['co15', 'dictpaths'],
+    "streams": ['co15', 'dictpaths', 'configfields'],
     "witnesses": ['F1', 'F16', 'F17', 'F18', 'F19', 'F28', 'F44', 'F48'],
     "rule": 'as C06, with assignment/load-heavy histories and wrongly typed values of every JSON-like kind',
     "trusted_base": [KERNEL, "Print Assumptions: closed under the global context (no axioms)", TIE, HARNESS,
